@@ -2,6 +2,7 @@
 use super::*;
 use crate::carrier::verif_harness::expected_status;
 use crate::gatekeeper::verif_harness::concrete_gk;
+use crate::gatekeeper::UserInfo;
 use crate::verif_bitcoind as node;
 use crate::verif_bitcoind::Outcome;
 use crate::verif_collections::HashMap;
@@ -420,3 +421,4 @@ fn c04_p4_rebroadcast_f7() {
     std::mem::forget(rejected);
     std::mem::forget(r);
 }
+
